@@ -198,4 +198,11 @@ def run (cfg : Config) (core : World → Config → CoreResult) (w : World) : Ru
   | none => { exit := 1, stdout := [], stderr := ["open " ++ cfg.log ++ ": no such file or directory"], world := w }
   | some w1 => runFrom cfg core w1
 
+/-- what the caller of the process sees when the standard output cannot be written (`> /dev/full`,
+a closed descriptor): `Generate` ignores the result of its `fmt.Println` calls, so nothing but the
+text that would have been printed is lost — exit status, diagnostics and files are those of `run`. -/
+def runWithStdout (stdoutOk : Bool) (cfg : Config) (core : World → Config → CoreResult) (w : World) : RunResult :=
+  let r := run cfg core w
+  if stdoutOk then r else { r with stdout := [] }
+
 end Convergen
